@@ -1,4 +1,283 @@
-import ChemModel.Model.Kinetics
+/-
+C05 — only balanced reactions are admitted and their elements and charge are conserved.
+
+Property theorems only; helper lemmas live in Proofs/Kinetics.lean, the executable model (mirroring
+`ReactionSystem.check_balance`, `Reaction.composition_violation`, `Substance.composition_keys`,
+`ReactionSystem.composition_balance_vectors`, the analytic solver of `get_odesys(...)[1]['linear_dependencies']` and the
+mass/charge violation helpers) in Model/Kinetics.lean.
+
+Notation.  `subs : Substances σ A` is the ordered dict of the system's substances with their `composition`
+(`none` = `None`), composition amounts in a commutative ring `A` with decidable equality (ℤ, ℚ);
+`compAt sc key` is `sc.composition.get(key, 0)`;
+`compSum r key subs = Σ_{s ∈ subs} comp s key · net r s` — the net production of composition key `key` (atomic number,
+`0` = charge) by reaction `r`, summed over the substances *of the system*, which is what chempy computes.
+
+Not claimed here (runtime behaviour of the delegated integrator, sampled by C06): that a numerical integration keeps
+the invariants at their initial values to solver tolerance.
+-/
+import ChemModel.Proofs.Kinetics
+
 namespace ChemModel.C05
-theorem placeholder : True := trivial
+open ChemModel.Kinetics
+
+variable {σ ρ : Type} [DecidableEq σ] {A : Type} [CommRing A] [DecidableEq A]
+
+/-- **Accepted iff balanced.**  When every substance carries a composition, `check_balance` (strict or not) accepts
+    exactly when every reaction leaves every composition key — each element and the charge key `0`, in fact *every*
+    integer key — unchanged.
+    (`subs ≠ [] ∨ rs = []`: with an empty substance dict `composition_violation` cannot even unpack
+    `zip(*substances.items())`, see `empty_substances_defect_witness`.) -/
+theorem accept_iff_balanced (subs : Substances σ A) (rs : List (Reaction σ ρ)) (strict : Bool)
+    (hall : ∀ sc ∈ subs, ∃ comp, sc.2 = some comp) (hne : subs ≠ [] ∨ rs = []) :
+    checkBalance subs rs strict = .ok ↔
+      ∀ r ∈ rs, ∀ key : ℤ, (subs.map fun sc => compAt sc key * ((netStoich r sc.1 : ℤ) : A)).sum = 0 := by
+  have hnone := firstWithoutComposition_eq_none_iff.mpr hall
+  unfold checkBalance
+  rw [hnone]
+  simp only
+  rcases hne with hne | rfl
+  · rw [checkRxns_ok_iff hne hnone]
+    constructor
+    · intro h r hr key
+      by_cases hk : key ∈ compositionKeys subs
+      · exact h r hr key hk
+      · exact compSum_eq_zero_of_not_mem r hk
+    · intro h r hr key _
+      exact h r hr key
+  · simp [checkRxns]
+
+/-- **A rejection names a violated key.**  When every substance carries a composition and the check does not accept,
+    the outcome is the `ValueError` "Composition violation (key: net) in reaction" for the *first* unbalanced reaction
+    `rs[i]`: the reported `net` is that reaction's net production of the reported `key`, it is non-zero, `key` is a
+    composition key of the system, and all earlier reactions are balanced. -/
+theorem rejection_names_violated_key (subs : Substances σ A) (rs : List (Reaction σ ρ)) (strict : Bool)
+    (hall : ∀ sc ∈ subs, ∃ comp, sc.2 = some comp) (hne : subs ≠ [])
+    (hrej : checkBalance subs rs strict ≠ .ok) :
+    ∃ i key net r, checkBalance subs rs strict = .violation i key net ∧ rs[i]? = some r ∧
+      key ∈ compositionKeys subs ∧
+      net = (subs.map fun sc => compAt sc key * ((netStoich r sc.1 : ℤ) : A)).sum ∧ net ≠ 0 ∧
+      ∀ j < i, ∀ r', rs[j]? = some r' → ∀ key' : ℤ, compSum r' key' subs = 0 := by
+  have hnone := firstWithoutComposition_eq_none_iff.mpr hall
+  unfold checkBalance at hrej ⊢
+  rw [hnone] at hrej ⊢
+  simp only at hrej ⊢
+  have hnr := checkRxns_not_raised_or_noComposition (ρ := ρ) hne hnone rs 0
+  cases hres : checkRxns subs rs 0 with
+  | ok => exact absurd hres hrej
+  | noComposition s => exact absurd hres (hnr.2 s)
+  | raised e => exact absurd hres (hnr.1 e)
+  | violation i key net =>
+    obtain ⟨r, _, h1, h2, h3, h4, h5⟩ := checkRxns_violation hne hnone rs 0 hres
+    refine ⟨i, key, net, r, rfl, by simpa using h1, h2, h3, h4, ?_⟩
+    intro j hj r' hr' key'
+    by_cases hk : key' ∈ compositionKeys subs
+    · exact h5 j (by simpa using hj) r' hr' key' hk
+    · exact compSum_eq_zero_of_not_mem r' hk
+
+/-- **"Some substance has no composition ⇒ accept"** (non-strict), respectively the `ValueError` "No composition for …"
+    naming the first such substance (strict) — whatever the reactions are. -/
+theorem accept_when_composition_missing (subs : Substances σ A) (rs : List (Reaction σ ρ)) (s : σ)
+    (h : firstWithoutComposition subs = some s) :
+    checkBalance subs rs false = .ok ∧ checkBalance subs rs true = .noComposition s := by
+  unfold checkBalance
+  rw [h]
+  exact ⟨rfl, rfl⟩
+
+/-- The `zip(*substances.items())` of `composition_violation` fails on an empty substance dict: a system without
+    substances and with a (necessarily trivially balanced) reaction is *not* accepted but raises `ValueError`
+    ("not enough values to unpack").  Reachable only with `Reaction(..., checks=())`, since a reaction without
+    substances fails `check_any_effect`. -/
+theorem empty_substances_defect_witness :
+    checkBalance ([] : Substances String ℤ) [({ reac := [], prod := [], param := (1 : ℤ) } : Reaction String ℤ)] false
+      = .raised .valueError := by
+  rfl
+
+section Invariants
+variable {R : Type} [CommRing R]
+
+/-- **The reported composition vectors are exact linear invariants of the kinetic right-hand side.**
+    For every accepted system whose substances all carry compositions, `composition_balance_vectors()` succeeds with
+    one row per composition key, and for every row `B_k`, EVERY concentration function `c` in any commutative ring `R`
+    (compositions mapped into `R` by any ring homomorphism `φ`, e.g. `ℤ → R` or `ℚ → ℝ`), and both ways of asking for the
+    rates (`substance_keys=None` or the system's substance order):  `Σ_s B_k[s] · rates(c)[s] = 0`. -/
+theorem invariants_exact (φ : A →+* R) (subs : Substances σ A) (rs : List (Reaction σ R))
+    (hall : ∀ sc ∈ subs, ∃ comp, sc.2 = some comp) (hne : subs ≠ [])
+    (hacc : checkBalance subs rs false = .ok) :
+    ∃ B ck, compositionBalanceVectors subs = .ok (B, ck) ∧ ck = compositionKeys subs ∧ B.length = ck.length ∧
+      ∀ row ∈ B, ∀ (c : σ → R) (keys? : Option (List σ)), (keys? = none ∨ keys? = some (dkeys subs)) →
+        (List.zipWith (fun b s => φ b * valueAt (sysRates c rs keys? none) s) row (dkeys subs)).sum = 0 := by
+  have hnone := firstWithoutComposition_eq_none_iff.mpr hall
+  have hbal := (accept_iff_balanced subs rs false hall (Or.inl hne)).mp hacc
+  refine ⟨_, _, compositionBalanceVectors_eq subs hnone, rfl, by simp, ?_⟩
+  intro row hrow c keys? hkeys
+  obtain ⟨key, _, rfl⟩ := List.mem_map.mp hrow
+  have hz : (List.zipWith (fun b s => φ b * valueAt (sysRates c rs keys? none) s)
+      (subs.map fun sc => compAt sc key) (dkeys subs)) =
+      subs.map fun sc => φ (compAt sc key) * (rs.map fun r => contribution c r sc.1).sum := by
+    unfold dkeys
+    rw [List.zipWith_map, List.zipWith_self]
+    apply List.map_congr_left
+    intro sc hsc
+    congr 1
+    simp only [sysRates]
+    apply valueAt_sysRatesNoFeed_contribution
+    intro ks hks
+    rcases hkeys with h | h
+    · rw [h] at hks; cases hks
+    · rw [h] at hks
+      cases hks
+      exact List.mem_map_of_mem (f := Prod.fst) hsc
+  rw [hz, weighted_rates_eq]
+  apply List.sum_eq_zero
+  intro x hx
+  obtain ⟨r, hr, rfl⟩ := List.mem_map.mp hx
+  have : compSum r key subs = 0 := hbal r hr key
+  simp [this]
+
+end Invariants
+
+section Elimination
+variable {K : Type} [Field K]
+
+/-- **One offered expression reproduces its row.**  For a row with `row idx = 1` (what the solver's pivot step
+    establishes), the expression offered for `y idx`, `y₀ idx − Σ_{di < ny, di ≠ idx} row di · (y di − y₀ di)`, mentions
+    neither `y idx` nor any `y di` whose coefficient vanishes, and any state `y` whose component `idx` equals it satisfies
+    `row · (y − y₀) = 0`. -/
+theorem elimination_reproduces_row (row y0 y : ℕ → K) (ny idx : ℕ) (h2 : idx < ny) (hone : row idx = 1) :
+    (∀ y', (∀ di, di < ny → di ≠ idx → row di ≠ 0 → y di = y' di) →
+        elimExpr row y0 y ny idx = elimExpr row y0 y' ny idx) ∧
+      (y idx = elimExpr row y0 y ny idx →
+        ((List.range ny).map fun di => row di * (y di - y0 di)).sum = 0) :=
+  ⟨fun y' h => elimExpr_congr row y0 y y' ny idx h, elim_row row y0 y ny idx h2 hone⟩
+
+variable [DecidableEq K]
+
+/-- **Every elimination the analytic solver offers is explicit and reproduces the invariants** (repaired solver,
+    fix 16e59b0).  For any matrix `M` (`m` rows, `ny` columns; chempy passes the reduced composition matrix), any
+    `preferred` list and the pairs `(ri, idx)` recorded by phase 1 together with the final matrix `Mf`:
+    (a) the row of one eliminated concentration has coefficient `0` on every *other* eliminated concentration, so
+        (a') the offered expressions depend only on the concentrations that are not eliminated;
+    (b) a state whose eliminated component equals its offered expression satisfies that row's invariant;
+    (c) the rows of `Mf` annihilate exactly the vectors annihilated by the rows of `M`: nothing is lost or invented. -/
+theorem offered_eliminations_sound (m ny : ℕ) (names : ℕ → σ) (npiv : ℕ) (M : Mat K) (preferred? : Option (List σ))
+    (hnp : npiv ≤ m) :
+    let res := elimPlan m ny names npiv M preferred?
+    let Mf := res.1
+    let chosen := res.2.1
+    (∀ rc ∈ chosen, ∀ rc' ∈ chosen, rc ≠ rc' → entry Mf rc.1 rc'.2 = 0) ∧
+    (∀ rc ∈ chosen, ∀ y0 y y' : ℕ → K, (∀ di, di < ny → (∀ rc' ∈ chosen, rc'.2 ≠ di) → y di = y' di) →
+        elimExpr (entry Mf rc.1) y0 y ny rc.2 = elimExpr (entry Mf rc.1) y0 y' ny rc.2) ∧
+    (∀ rc ∈ chosen, ∀ y0 y : ℕ → K, y rc.2 = elimExpr (entry Mf rc.1) y0 y ny rc.2 →
+        ((List.range ny).map fun di => entry Mf rc.1 di * (y di - y0 di)).sum = 0) ∧
+    (∀ v : ℕ → K, (∀ rj, rj < m → rowDot Mf ny rj v = 0) ↔ (∀ rj, rj < m → rowDot M ny rj v = 0)) := by
+  intro res Mf chosen
+  obtain ⟨hker, hunit, hpw, _⟩ := elimLoop_spec m ny names npiv 0 M preferred? (by omega)
+  have hgen : ∀ (l : List (ℕ × ℕ)), (l.Pairwise fun a b => a.1 < b.1) →
+      ∀ a ∈ l, ∀ b ∈ l, a ≠ b → a.1 ≠ b.1 := by
+    intro l
+    induction l with
+    | nil => intro _ a ha; simp at ha
+    | cons x t ih =>
+      intro hl a ha b hb hne
+      rw [List.pairwise_cons] at hl
+      rcases List.mem_cons.mp ha with ea | ha' <;> rcases List.mem_cons.mp hb with eb | hb'
+      · exact absurd (ea.trans eb.symm) hne
+      · rw [ea]; exact Nat.ne_of_lt (hl.1 b hb')
+      · rw [eb]; exact (Nat.ne_of_lt (hl.1 a ha')).symm
+      · exact ih hl.2 a ha' b hb' hne
+  have hrows : ∀ rc ∈ chosen, ∀ rc' ∈ chosen, rc ≠ rc' → rc.1 ≠ rc'.1 := hgen chosen hpw
+  have ha : ∀ rc ∈ chosen, ∀ rc' ∈ chosen, rc ≠ rc' → entry Mf rc.1 rc'.2 = 0 := by
+    intro rc hrc rc' hrc' hne
+    obtain ⟨_, hlt, _, _⟩ := hunit rc hrc
+    obtain ⟨_, _, _, hu⟩ := hunit rc' hrc'
+    exact hu.2 rc.1 (by omega) (hrows rc hrc rc' hrc' hne)
+  refine ⟨ha, ?_, ?_, hker⟩
+  · intro rc hrc y0 y y' hfree
+    apply elimExpr_congr
+    intro di hdi hne hnz
+    by_cases hex : ∃ rc' ∈ chosen, rc'.2 = di
+    · obtain ⟨rc', hrc', rfl⟩ := hex
+      have : rc ≠ rc' := fun e => hne (e ▸ rfl)
+      exact absurd (ha rc hrc rc' hrc' this) hnz
+    · exact hfree di hdi (fun rc' hrc' e => hex ⟨rc', hrc', e⟩)
+  · intro rc hrc y0 y hy
+    obtain ⟨_, _, hc, hu⟩ := hunit rc hrc
+    exact elim_row (entry Mf rc.1) y0 y ny rc.2 hc hu.1 hy
+
+/-- **All invariants are reproduced** when every row of the final matrix is served or zero (always the case for
+    `preferred=None`, where each non-zero row gets a column): a state satisfying all offered eliminations satisfies
+    every invariant `M[rj, :] · (y − y₀) = 0` of the original matrix. -/
+theorem all_invariants_reproduced (m ny : ℕ) (names : ℕ → σ) (npiv : ℕ) (M : Mat K) (preferred? : Option (List σ))
+    (hnp : npiv ≤ m) (y0 y : ℕ → K) :
+    let res := elimPlan m ny names npiv M preferred?
+    (∀ rj, rj < m → (∃ rc ∈ res.2.1, rc.1 = rj) ∨ ∀ di, di < ny → entry res.1 rj di = 0) →
+    (∀ rc ∈ res.2.1, y rc.2 = elimExpr (entry res.1 rc.1) y0 y ny rc.2) →
+    ∀ rj, rj < m → rowDot M ny rj (fun di => y di - y0 di) = 0 := by
+  intro res hcover hall
+  obtain ⟨_, _, hb, hc⟩ := offered_eliminations_sound m ny names npiv M preferred? hnp
+  apply (hc (fun di => y di - y0 di)).mp
+  intro rj hrj
+  rcases hcover rj hrj with ⟨rc, hrc, rfl⟩ | hz
+  · exact hb rc hrc y0 y (hall rc hrc)
+  · unfold rowDot
+    apply List.sum_eq_zero
+    intro x hx
+    obtain ⟨di, hdi, rfl⟩ := List.mem_map.mp hx
+    have h0 : entry (elimPlan m ny names npiv M preferred?).1 rj di = 0 := hz di (List.mem_range.mp hdi)
+    rw [h0]
+    simp
+
+/-- the input on which the solver before fix 16e59b0 offered `H2O` in terms of itself: reduced composition matrix of
+    H2, O2, H2O, H+, OH-, H2O2 with `preferred = ["H2O", "OH-"]`.  The repaired loop serves H2O from row 0 and OH- from
+    row 2, and both expressions are free of the other eliminated concentration. -/
+def exRows : Mat ℚ := [[1, 0, 1, 0, 1, 1], [0, 1, 1/2, 0, 1/2, 1], [0, 0, 0, 1, -1, 0]]
+def exNames : ℕ → String := fun i => ["H2", "O2", "H2O", "H+", "OH-", "H2O2"].getD i ""
+
+example : (elimPlan 3 6 exNames 3 exRows (some ["H2O", "OH-"])).2.1 = [(0, 2), (2, 4)] ∧
+    (elimPlan 3 6 exNames 3 exRows (some ["H2O", "OH-"])).2.2 = some [] ∧
+    (elimPlan 3 6 exNames 3 exRows (some ["H2O", "OH-"])).1 =
+      [[1, 0, 1, 1, 0, 1], [-1/2, 1, 0, 0, 0, 1/2], [0, 0, 0, -1, 1, 0]] := by decide +kernel
+
+end Elimination
+
+omit [DecidableEq A] in
+/-- **Violation helpers** (`mass_balance_violation`, `charge_neutrality_violation`): the helper sums
+    `attr(s) · net r s`; for an attribute that is a linear combination `Σ_key w key · comp s key` of the composition
+    (charge: `w 0 = 1`; mass: atomic weights, `w 0 = −mₑ`) it equals `Σ_key w key · (net production of key)`, hence it
+    vanishes for a balanced reaction. -/
+theorem violation_helpers (r : Reaction σ ρ) (subs : Substances σ A) (ks : List ℤ) (w : ℤ → A) :
+    let attr := fun sc : σ × Option (Comp A) => (ks.map fun key => w key * compAt sc key).sum
+    attrViolation r (subs.map fun sc => (sc.1, attr sc)) = (ks.map fun key => w key * compSum r key subs).sum ∧
+      ((∀ key ∈ ks, compSum r key subs = 0) → attrViolation r (subs.map fun sc => (sc.1, attr sc)) = 0) := by
+  intro attr
+  have h := attrViolation_of_linear r subs ks w
+  refine ⟨h, fun hz => ?_⟩
+  rw [h]
+  apply List.sum_eq_zero
+  intro x hx
+  obtain ⟨key, hk, rfl⟩ := List.mem_map.mp hx
+  simp [hz key hk]
+
+/-! ### The hypotheses are satisfiable: water formation / autoprotolysis -/
+
+/-- H2, O2, H2O, H+, OH- with compositions (1 = H, 8 = O, 0 = charge) -/
+def exSubs : Substances String ℤ :=
+  [("H2", some [(1, 2)]), ("O2", some [(8, 2)]), ("H2O", some [(1, 2), (8, 1)]),
+   ("H+", some [(0, 1), (1, 1)]), ("OH-", some [(0, -1), (1, 1), (8, 1)])]
+
+def exRxns : List (Reaction String ℚ) :=
+  [{ reac := [("H2", 2), ("O2", 1)], prod := [("H2O", 2)], param := 3 },
+   { reac := [("H2O", 1)], prod := [("H+", 1), ("OH-", 1)], param := 1/2 }]
+
+example : checkBalance exSubs exRxns false = .ok := by decide +kernel
+example : compositionBalanceVectors exSubs = .ok ([[0, 0, 0, 1, -1], [2, 0, 2, 1, 1], [0, 2, 1, 0, 1]], [0, 1, 8]) := by
+  decide +kernel
+/-- unbalanced in charge only (`H2O + (H2) -> 2 H+ + OH-`) -/
+def exChargeOnly : Reaction String ℚ :=
+  { reac := [("H2O", 1)], prod := [("H+", 2), ("OH-", 1)], inactReac := [("H2", 1)], param := 1 }
+example : checkBalance exSubs [exChargeOnly] false = .violation 0 0 1 := by decide +kernel
+/-- unbalanced in hydrogen only, second reaction -/
+example : checkBalance exSubs (exRxns ++ [{ reac := [("H2", 1)], prod := [], param := 1 }]) true = .violation 2 1 (-2) := by
+  decide +kernel
+
 end ChemModel.C05
